@@ -31,6 +31,8 @@ def main():
     if a.repo:
         os.environ['VERIF_REPO'] = os.path.abspath(a.repo)
     sys.path.insert(0, VERIF)
+    import logging
+    logging.disable(logging.ERROR)   # the repository logs at INFO on every call; keep the check output readable
     from vlib import loader, runner
     loader.use_repo_on_syspath()
     seed = int(os.environ.get('VERIF_SEED', '0') or 0)
